@@ -218,7 +218,13 @@ static void parse_case(char *text)
 {
     memset(&G, 0, sizeof(G));
     G.mask = 7;
+    G.drain = 1;
     G.main_a.kind = A_MAIN;
+    G.main_a.skip_mutex = -1;
+    for (int i = 0; i < MAXU; i++)
+        G.unit[i].skip_mutex = -1;
+    for (int i = 0; i < MAXEXT; i++)
+        G.ext[i].skip_mutex = -1;
     g_nenv = 0;
     char *save;
     for (char *line = strtok_r(text, "\n", &save); line; line = strtok_r(NULL, "\n", &save)) {
@@ -247,6 +253,7 @@ static void parse_case(char *text)
             G.want_hist = (int)kv(line, "hist", 0);
             G.spin = (unsigned)kv(line, "spin", 40);
             G.mode = (int)kv(line, "mode", 0);
+            G.drain = (int)kv(line, "drain", 1);
         } else if (!strncmp(line, "env", 3)) {
             char *p = line + 3;
             while (*p == ' ')
@@ -454,7 +461,7 @@ int main(int argc, char **argv)
         fflush(stdout);
         pid_t pid = fork();
         if (pid == 0) {
-            dup2(efd, 2);
+            if (!getenv("ABTX_KEEP_STDERR")) dup2(efd, 2);
             close(efd);
             int nfd = open("/dev/null", O_WRONLY);
             dup2(nfd, 1);
@@ -527,5 +534,6 @@ int main(int argc, char **argv)
                (unsigned long)R->spin_sleeps, (unsigned long)R->clock_jumps, ms);
         fflush(stdout);
     }
+    free(text);
     return 0;
 }
